@@ -49,8 +49,8 @@ func init() {
 	evid.Reg("cli_reuse", checkCLIReuse)
 	evid.Commands("obiconvert", "obigrep", "obicsv", "obidistribute")
 	evid.Tests(
-		evid.Spec{Name: "TestPropCLICompress", Kind: "rapid", Quick: 96, Thorough: 2400, QuickShards: 8, ThoroughShards: 16},
-		evid.Spec{Name: "TestPropCLIReuse", Kind: "rapid", Quick: 200, Thorough: 4000, QuickShards: 8, ThoroughShards: 16},
+		evid.Spec{Name: "TestPropCLICompress", Kind: "rapid", Quick: 96, Thorough: 1600, QuickShards: 8, ThoroughShards: 16},
+		evid.Spec{Name: "TestPropCLIReuse", Kind: "rapid", Quick: 200, Thorough: 3000, QuickShards: 8, ThoroughShards: 16},
 	)
 }
 
